@@ -4,6 +4,7 @@ use super::*;
 /// as_ptr / as_argc / as_car / as_cdr / as_bp on every payload value of the payload-free and usize-carrying
 /// variants: Ok(payload) exactly on the matching variant, Err otherwise (loop-free, full usize domain)
 #[kani::proof]
+#[kani::unwind(2)]
 fn vcell_accessors() {
     let k: u8 = kani::any();
     let a: usize = kani::any();
